@@ -113,22 +113,22 @@ peg::parser! {
                 parse_shell_literal_number(s, radix.cast_unsigned())
             } /
             // Hex literal
-            "0" ['x' | 'X'] s:$(['0'..='9' | 'a'..='f' | 'A'..='F']*) {?
-                i64::from_str_radix(s, 16).or(Err("i64"))
+            "0" ['x' | 'X'] s:$(['0'..='9' | 'a'..='f' | 'A'..='F']+) {?
+                parse_shell_literal_number(s, 16)
             } /
             // Octal literal
             s:$("0" ['0'..='8']*) {?
-                i64::from_str_radix(s, 8).or(Err("i64"))
+                parse_shell_literal_number(s, 8)
             } /
             // Decimal literal
             decimal_literal()
 
         rule decimal_literal() -> i64 =
             s:$(['1'..='9'] ['0'..='9']*) {?
-                // Parse as u64 first, then cast to i64. This handles values like
-                // 9223372036854775808 (i64::MAX + 1) which is needed for INT64_MIN
-                // when preceded by unary minus: -(9223372036854775808) wraps to i64::MIN.
-                s.parse::<u64>().map(|v| v.cast_signed()).or(Err("i64"))
+                // Like every other literal form, a decimal literal that does not fit wraps around
+                // (as in bash); this also handles values like 9223372036854775808 (i64::MAX + 1),
+                // needed for INT64_MIN when preceded by unary minus.
+                parse_shell_literal_number(s, 10)
             }
     }
 }
